@@ -22,18 +22,25 @@ TRUSTED = ['time.sleep sleeps at least its argument, perf_counter is monotone (e
            'client stream: the whole of _entrez.py:26-77 incl. path/ext defaults, os.path.join file names, per-call limit choice, failing requests (run_C19_client); '
            'sugar.read is an oracle (texts are compared, parsed records are checked against read(payload) and hand-written expectations)']
 ASSUMPTIONS = ['single-threaded client', 'integer-tick virtual clock']
-LEVEL_TEXT = ('Coq theorems for every call history with arbitrary non-negative arrival gaps, sleep overshoots and request durations (failed requests count as '
-              'starts): the request N places earlier started at least one window before, hence at most N starts in ANY half-open one-second window [x, x+W) (N, window from '
-              'regenerated constants); the limit is chosen per call: for ANY history of key switches never more than 10 starts in any window (window_limit_any_key, invariant: every '
+LEVEL_TEXT = ('Coq theorems (32) over executable models of the whole of sugar/web/_entrez.py. RATE, for every call history with arbitrary non-negative arrival gaps, sleep '
+              'overshoots and request durations (failed requests count as starts): at most N starts in ANY half-open one-second window [x, x+W), x arbitrary (window_limit; N, W '
+              'regenerated); the limit is chosen per call: for ANY history of key switches never more than 10 starts in any window (window_limit_any_key; invariant: every '
               'start no longer in the deque is at least W old), a key added later keeps 3 before / 10 after (key_added_later), a key REMOVED lets 10 keyless requests start in one '
-              'window (key_removed_refuted, pending fix keyswitch); sleep iff popleft branch and popped stamp younger than W (wait_sleeps_iff), and in reachable states iff N requests '
-              'started within the last second (sleep_iff_window_full); cache: request iff no '
-              'path/no file/empty file/overwrite, and in any history - the server free to answer differently at every call - no second request for a cached non-empty (path,id,ext) unless overwrite is set or an answer for that file was empty. The state machines '
-              '(rate, cache, and the whole client run_C19_client) are tied to the real class by differential runs under a virtual clock and stub HTTP layer.')
-LEVEL_NOTE = ('Trusted: Coq kernel/vm_compute, tools/gens/entrez.py, the harness (virtual clock, stub requests module), CPython deque/float/os. '
+              'window (key_removed_refuted, pending fix keyswitch); sleep iff popleft branch and popped stamp younger than W (wait_sleeps_iff), in reachable states iff N requests '
+              'started within the last second (sleep_iff_window_full); the requests of any history of public calls on one client are such a limiter history '
+              '(client_window_limit, client_window_limit_const). CACHE: complete decision table of fetch_seq (fetch_decision_table, need_request_iff, eff_path_table); for ANY '
+              'history of fetch_seq/get_seq/fetch_basket/get_basket calls from any state, requests for a file <= (1 unless a non-empty file was there) + calls with overwrite + '
+              'requests that failed or were answered empty (cache_request_bound, cache_once_history), the file holds the last successful answer (file_is_last_answer), baskets are '
+              'one fetch per id occurrence in order, duplicates not merged (basket_shape, basket_nocache_requests_all); with the reader as an arbitrary function the result of get_seq '
+              'is first(read(payload)) cached or not (get_requested, get_cached, get_basket_reads_in_order); file names id.ext are injective iff extensions have no dot '
+              '(basename_inj, basename_collision, fname_inj, fname_in_dir, fname_absolute_id). The earlier per-key cache theorems (request_iff ... cache_once_const) are kept. '
+              'All models are tied to the real class by differential runs under a virtual clock and stub HTTP layer.')
+LEVEL_NOTE = ('Trusted: Coq kernel/vm_compute, tools/gens/entrez.py, the harness (virtual clock, stub requests module), CPython deque/float/os, sugar.read as an oracle '
+              '(section variable in Coq; in the runs its results are compared with read(payload) and hand-written expectations). '
               'Model assumptions: sleep overshoot/gaps/durations >= 0, zero delay between recording and sending a request, single thread, file names are normalised strings '
-              '(ids/extensions without slash), case-sensitive file system. The whole-client model (key switches, failures, file names, path/ext defaults) is so far tied by the '
-              'correspondence only; its theorems are the rate theorems over run2. No axioms.')
+              '(ids/extensions without slash), case-sensitive file system (ids differing in case are different files), distinct directory strings other than a trailing slash do not alias. '
+              'Known: ids with a slash leave the cache directory (fname_absolute_id) or fail at open(); an extension with a dot can collide with a dotted id (basename_collision); '
+              'removing api_key from a used client keeps the 10-slot history (pending fix keyswitch). No axioms.')
 TECHNIQUE = 'Coq invariant proof over a state machine with adversarial environment + differential correspondence under a virtual clock'
 
 VALS = [0, 0, 0, 1, 255, 256, 512, 1023, 1024, 1025, 2048, 300]
